@@ -36,7 +36,7 @@ PROFILES = {
                    p_unknown_dep=0.02, p_foreign_dep=0.05),
     "rejections": dict(p_dup=0.3, p_cycle=0.3, w_bad=2.5, w_decorate=3, p_multi_dec=0.5, n_types=5, p_export=0.2),
     "faults": dict(p_fault=0.4, p_callback=0.5, w_invoke=9, w_decorate=3, n_types=6),
-    "trees": dict(p_late_scope_cycle=0.08, w_scope=5, max_scopes=8, p_export=0.25, early_scopes=0.5, w_decorate=2, p_fault=0.03),
+    "trees": dict(p_late_scope_cycle=0.08, p_dec_chain=0.35, w_scope=5, max_scopes=8, p_export=0.25, early_scopes=0.5, w_decorate=2, p_fault=0.03),
     "keys": dict(p_named=0.6, p_as=0.35, p_group_result=0.4, p_dup=0.2, n_types=3, w_decorate=1, p_fault=0.02),
     "groups": dict(p_group_result=0.7, p_group_param=0.7, p_soft=0.15, p_flatten=0.5, p_as=0.3, n_types=4,
                    w_decorate=0.6, p_fault=0.05, p_export=0.2, p_group_chain=0.08, p_wrap_ty=0.25),
@@ -453,6 +453,8 @@ class Gen:
             f["callback"] = True
         if f.get("callback") or self.chance(0.2):
             f["dur"] = [self.r.choice(PRIMES) for _ in range(nexec)]
+        if f.get("err") and self.chance(0.15):
+            f["err_iface"] = True      # the error result is declared as an interface that embeds error
         # a trailing variadic parameter (dig ignores it; the model's signatures do not carry it)
         if self.chance(self.p["p_variadic"]):
             f["variadic"] = True
@@ -528,21 +530,51 @@ class Gen:
         def consume(sc):
             f = self.new_fn(params=[dict(k="obj", fields=[self.leaf_param(k)])], results=[], err=True)
             self.ops.append(dict(op="invoke", scope=sc, fn=f["id"]))
+        if grp and self.chance(0.5):
+            # the deepest scope (or the middle one) feeds the group too: its member is committed BELOW
+            # the decorating scopes
+            sc = self.r.choice([leaf, chain[1]])
+            f = self.new_fn(params=[], results=[dict(k="obj", fields=[dict(k="group", ty=k[1], group=k[2], flatten=False, **{"as": []}),
+                                                                      dict(k="single", ty=(k[1] + 1) % self.p["n_types"], name=3, **{"as": []})])], err=False)
+            self.ops.append(dict(op="provide", scope=sc, fn=f["id"], export=False))
+            self.prov[sc].setdefault(k, f["id"])
+        # exported consumer: a type T registered from the deepest scope with Export(true) that consumes
+        # the key; the middle decorator depends on T as well (T is built with the deepest scope's view
+        # while the middle decorator is on the stack)
+        tkey = None
+        if self.chance(0.3):
+            tkey = ("s", (k[1] + 2) % self.p["n_types"], 3)
+            if not any(tkey in self.prov[b] for b in range(len(self.parents))):
+                f = self.new_fn(params=[dict(k="obj", fields=[self.leaf_param(k)])],
+                                results=[dict(k="obj", fields=[dict(k="single", ty=tkey[1], name=tkey[2], **{"as": []})])], err=False)
+                self.ops.append(dict(op="provide", scope=leaf, fn=f["id"], export=True))
+                self.prov[0][tkey] = f["id"]
+            else:
+                tkey = None
         # late decoration: the deepest scope resolves the key BEFORE a decorator appears two or
         # more levels above it (and between the two Decorate calls), then again afterwards
         late = self.chance(0.45)
         if late:
             consume(leaf)
-        for sc in (chain[-1], chain[1]):
+        # the middle decorator may need a type nobody provides (then it cannot be built: Invokes below it
+        # must FAIL, not fall back to the outer decorator)
+        gap = self.chance(0.2)
+        for sc in (chain[-1], chain[1]) + ((leaf,) if tkey is not None else ()):
             if late and sc == chain[1] and self.chance(0.5):
                 consume(leaf)
             res = dict(k="group", ty=k[1], group=k[2], flatten=False, **{"as": []}) if grp else dict(k="single", ty=k[1], name=k[2], **{"as": []})
             if grp and k[1] < 3 and self.chance(self.p["p_ns"]):
                 res["ns"] = self.r.choice([1, 2])
             par = [self.leaf_param(k)] if self.chance(0.8) else []
+            if sc == chain[1] and tkey is not None:
+                par.append(self.leaf_param(tkey))
+            if sc == chain[1] and gap:
+                par.append(dict(k="single", ty=(k[1] + 3) % self.p["n_types"], name=2, opt=False))
             f = self.new_fn(params=self.structure_params(par), results=[dict(k="obj", fields=[res])], err=self.chance(0.3))
             self.decorate_fn(f, role="dec")
             self.ops.append(dict(op="decorate", scope=sc, fn=f["id"]))
+        if tkey is not None:
+            consume(chain[1])
         order = [leaf, chain[-1]] if late else ([chain[-1], leaf] if self.chance(0.6) else [leaf, chain[-1], chain[1]])
         for sc in order:
             consume(sc)
